@@ -185,6 +185,7 @@ def run_case(ctx, st, pt, peps, links):
 def run(ctx):
     st = State()
     pt = install(ctx, st)
+    ctx.enable_disturb(pt, 0.02)     # other legitimate library calls interleaved between cases (vf.gen.disturb)
     cfg = gp.GenCfg(min_len=1, max_len=30, letters=list('ACDEFGHIKLMNPQRSTVWYBJOUXZ'))
     small = gp.GenCfg(min_len=1, max_len=6, letters=list('ACDEFGHIKLMNPQRSTVWYBJOUXZ'), p_res=0.4)
     for i in range(ctx.n(100000, 3000000)):
